@@ -14,7 +14,7 @@ Variable c : cfg.
 Variable conv : ty -> value -> option value.
 Variables bidir always : bool.
 Notation Good := (Good hatom udiff ops c conv bidir always).
-Notation GoodD := (GoodD conv bidir).
+Notation GoodD := (GoodD conv bidir always).
 Notation td := (to_delta conv bidir always ops).
 
 Hypothesis Hconv : forall ty0 v v', conv ty0 v = Some v' -> type_of v' = ty0.
